@@ -103,4 +103,31 @@ def fuseTags : List String :=
 def statsTags : List String := ["FUSE_MODEL", "FUSE_R2_INPAINT_THRESH"]
 def paramRequiredTags : List String := ["FUSE_KERNEL_SHAPE", "FUSE_MODEL", "FUSE_PROC_CRS", "FUSE_REF_FILE"]
 
+/-! ### The commands' exception handlers
+
+`fuse`, `compare` and `stats` wrap all their processing in one `try` whose single handler logs the exception and raises
+`click.Abort` (exit status 1).  The handler body as a tree: what it does may depend on conditions of the run (the verbosity, say);
+the exit status after an exception is 1 exactly when the path taken ends in `abort`. -/
+
+inductive HBody
+  | abort                                   -- `raise click.Abort()`
+  | fallthrough                             -- the handler ends without raising: the command returns, exit status 0
+  | log (next : HBody)                      -- a `logger.*(...)` call
+  | ite (cond : String) (t e : HBody)       -- `if cond: t else: e` (then the rest of the handler on both branches)
+  deriving Repr, DecidableEq
+
+/-- exit status of a command whose processing raised, given the truth of the conditions the handler looks at -/
+def HBody.exit (env : String → Bool) : HBody → Nat
+  | .abort => 1
+  | .fallthrough => 0
+  | .log n => n.exit env
+  | .ite c t e => if env c then t.exit env else e.exit env
+
+/-- the handler of all three commands: log the exception with its traceback, abort -/
+def cliHandler : HBody := .log .abort
+
+/-- exit status of a command: 0 when nothing was raised, the handler's otherwise -/
+def commandExit (h : HBody) (env : String → Bool) (raised : Bool) : Nat := if raised then h.exit env else 0
+
+
 end Homonim
